@@ -57,7 +57,8 @@ MATCH = b'MATCH'
 
 def shards(tier):
     q = tier == 'quick'
-    out = [{'kind': 'sim', 'n': 6000 if q else 60000} for _ in range(12)]
+    out = [{'kind': 'sweep', 'part': k, 'parts': 3} for k in range(3)]
+    out += [{'kind': 'sim', 'n': 6000 if q else 60000} for _ in range(9)]
     out += [{'kind': 'real', 'n': 12 if q else 150} for _ in range(4)]
     return out
 
@@ -117,7 +118,7 @@ def sim_cases(draw):
             'size': draw(st.sampled_from([1, 100, 2000]))}
 
 
-def expected(case):
+def expected(case, observed=None):
     """What the property demands.  Returns a dict:
          kind: 'match'|'data'|'timeout'|'eof'|'blocks'|'any'   by: latest acceptable finish (relative) or None"""
     Tsel = case['T']
@@ -126,6 +127,9 @@ def expected(case):
     entry = case['entry']
     first_data = min([a['t'] for a in case['actions'] if a['op'] == 'write' and a['data']] or [None], default=None) \
         if any(a['op'] == 'write' for a in case['actions']) else None
+    if observed is not None:
+        # actions pinned to reader calls: when they happened is only known afterwards
+        tm, te, first_data = observed
     if entry == 'read_nonblocking':
         tm = first_data
     if Teff is None:
@@ -135,6 +139,8 @@ def expected(case):
             return {'kind': 'eof', 'at': te}
         return {'kind': 'blocks'}
     if Teff == 0:
+        if observed is not None:
+            return {'kind': 'any'}          # pinned to calls a few microseconds in: either answer is acceptable
         if tm is not None and tm == 0.0:
             first = [a for a in case['actions'] if a['op'] == 'write' and a['t'] == 0.0][0]
             if entry != 'read_nonblocking' and len(first['data']) > case['size']:
@@ -215,7 +221,16 @@ def check_sim(case, col=None):
             if case['entry'] == 'waitnoecho':
                 check_waitnoecho(case, Teff, outcome, blocked, el, slack, where)
             else:
-                exp = expected(case)
+                observed = None
+                if case.get('call_indexed'):
+                    rel0 = t0 - sim.t0
+                    wr = [(t - rel0, d) for (t, nm, d) in log if nm == 'peer:write']
+                    tm_o = min([t for (t, d) in wr if d == len(MATCH)] or [None], default=None) if any(d == len(MATCH) for (_, d) in wr) else None
+                    fd_o = min([t for (t, d) in wr if d] or [None], default=None) if any(d for (_, d) in wr) else None
+                    ends = [t - rel0 for (t, nm, d) in log if nm in ('peer:exit', 'peer:close')]
+                    te_o = max(ends) if len(ends) >= (2 if case['kind'] == 'pty' else 1) else None
+                    observed = (tm_o, te_o, fd_o)
+                exp = expected(case, observed)
                 if blocked is not None:
                     if exp['kind'] != 'blocks':
                         raise Violation('blocks', '%s: the call never returns (%s); expected %s' % (where, blocked, exp['kind']))
@@ -386,8 +401,56 @@ def check_real(case, col=None):
         col.case(case, True)
 
 
+def sweep_cases(part, parts):
+    """Exhaustive: a short peer script ([noise, MATCH] or [noise, MATCH, exit+close]) pinned to every pair/triple
+    of the reader's first 10 interposed calls, x entry points x transports x T in {0.25, 0} x select|poll."""
+    import itertools
+    n = 0
+    for kind in ('pty', 'pipe', 'socket'):
+        for entry in ('expect', 'expect_exact', 'read_nonblocking'):
+            for T in (0.25, 0):
+                for with_end in (False, True):
+                    for idxs in itertools.combinations_with_replacement(range(1, 11), 3 if with_end else 2):
+                        for use_poll in (False, True):
+                            n += 1
+                            if n % parts != part:
+                                continue
+                            acts = [{'at_call': idxs[0], 't': 0.0, 'op': 'write', 'data': b'xx'},
+                                    {'at_call': idxs[1], 't': 0.0, 'op': 'write', 'data': MATCH}]
+                            if with_end:
+                                if kind == 'pty':
+                                    acts.append({'at_call': idxs[2], 't': 0.0, 'op': 'exit', 'status': 0})
+                                acts.append({'at_call': idxs[2], 't': 0.0, 'op': 'close'})
+                            yield {'kind': kind, 'entry': entry, 'T': T, 'default_T': 3.0, 'sched': 'pinned-to-calls', 'actions': acts,
+                                   'tm': None, 'te': None, 'echo_off': None, 'use_poll': use_poll, 'size': 2000, 'call_indexed': True}
+
+
+def run_sweep(spec, col, deadline_ts):
+    n = 0
+    for case in sweep_cases(spec['part'], spec['parts']):
+        if deadline_ts and (n & 255) == 0 and time.time() > deadline_ts:
+            col.inconclusive = True
+            col.count('exhaustive_cases_partial', n)
+            return
+        n += 1
+        try:
+            check_sim(case, col)
+        except Violation as v:
+            col.fail(v.key, v.what, case)
+            if len(col.failures) >= 4:
+                return
+    col.count('exhaustive_cases', n)
+
+
+EXHAUSTIVE_NOTE = ('a peer script [noise, MATCH(, exit+close)] pinned to every combination of the reader\'s first 10 interposed '
+                   'calls x {expect, expect_exact, read_nonblocking} x {pty, pipe, socket} x T in {0.25, 0} x select|poll')
+
+
 def run_shard(spec, seed, idx, deadline_ts):
     col = Collector()
+    if spec['kind'] == 'sweep':
+        run_sweep(spec, col, deadline_ts)
+        return col
     if spec['kind'] == 'sim':
         def body(case, c):
             with case_watchdog(120, 'C05 sim case'):
